@@ -51,6 +51,11 @@ claimed = {
    note="ASSUMED: the LZ4 block decoder/encoder contracts (third-party, partly assembly), snappy used without contract. NOT covered: decompress(compress(b)) == b end to end, Snappy's algorithm, contents flowing through bytes.Buffer. The claim is mechanism-level for the wrappers, as DESIGN.md states.",
    technique="contract-based deductive verification: loop invariants and termination measure over assumed library contracts",
    design="DESIGN.md §4 C08"),
+ "C15": dict(
+   text="Mechanism-level proof only, as DESIGN.md states: both writeSegment functions leave (and hand to the frame codec) an envelope whose compressed flag is clear; maybeSwitchToModernLayout switches exactly on READY/AUTHENTICATE of a version with the modern framing and never back; both connection constructors establish the object invariant 'frame codec, segment codec and multi-segment accumulator present', under which the client's reassembly path cannot dereference nil. The two server-side obligations failed on the original tree (discarded Flags.Remove result; accumulator never initialised) and are fixed. The end-to-end statement of C15 (sockets, goroutines, handshake sequencing, an independent peer) is NOT decided by this check.",
+   note="go statements ignored and channels opaque in the constructors; codec behaviour behind the frame.Codec/RawCodec interfaces assumed (non-nil results); zerolog without effect; server read path not covered.",
+   technique="contract-based deductive verification of the sequential mechanisms (postconditions, object invariant as type invariant), concurrency abstracted",
+   design="DESIGN.md §4 C15"),
 }
 
 not_applicable = {
